@@ -1140,6 +1140,13 @@ def stream_ids(ctx, ncases):
         lon0 = rng.choice([178.5, -179.0, 359.25, 10.0])
         lats = [B.lat(rng, -25, 25, 16) for _ in tg]
         lons = [((lon0 + 0.75 * i + 180) % 360) - 180 for i in range(len(tg))]
+        if rng.random() < 0.35:
+            # a drifter track stored continuously (unwrapped) across the seam: longitudes below -180 or above 360 are
+            # positions like any other
+            if rng.random() < 0.5:
+                lons = [-178.75 - 1.5 * i for i in range(len(tg))]
+            else:
+                lons = [358.5 + 1.25 * i for i in range(len(tg))]
         coords = {"time": B.coord_desc("time", tg), "latitude": B.coord_desc("float", latg),
                   "longitude": B.coord_desc("float", long_)}
         dims = ["time", "latitude", "longitude"]
